@@ -94,4 +94,9 @@ class WFQ(Scheduler):
             f"finish_time {self.finish_times[class_id]}"
         )
 
-        self.store.put(PriorityItem((self.finish_times[class_id], now), packet))
+        # equal stamps go out in arrival order (the heap itself is not stable)
+        self.store.put(
+            PriorityItem(
+                (self.finish_times[class_id], now, self.packets_received), packet
+            )
+        )
